@@ -45,6 +45,22 @@ STRAIGHT = [
     dict(file="FnValidate", src="client.py", qual="Client._raise_for_invalid_topic", name="raiseForInvalidTopic",
          params=[("topic", "Bytes")], attrs=[], writes=[], ret="Unit", falls_off=True),
 ]
+# methods with a `for m in self.<table>.values():` loop over message records (class MQTTMessage): the record's fields used
+# are listed with their Lean types; the loop body becomes `<name>_body`, a function of the attributes of `self`, and the
+# record; the loop a structural recursion over the list of records threading the written attributes.  Calls
+# `self.<callee>()` listed under `calls` are calls to the (read-only, parameterless) translated function of that name.
+RECLOOP = [
+    dict(file="FnSession", src="client.py", qual="Client._check_clean_session", name="checkCleanSession", params=[], straight=True,
+         attrs=[("_protocol", "Int"), ("_clean_start", "Int"), ("_mqttv5_first_connect", "Bool"), ("_clean_session", "Bool")],
+         writes=[], ret="Bool"),
+    dict(file="FnSession", src="client.py", qual="Client._messages_reconnect_reset_out", name="messagesReconnectResetOut", params=[],
+         attrs=[("_inflight_messages", "Int"), ("_max_inflight_messages", "Int"),
+                ("_protocol", "Int"), ("_clean_start", "Int"), ("_mqttv5_first_connect", "Bool"), ("_clean_session", "Bool")],
+         writes=["_inflight_messages"], ret="Unit",
+         loop=dict(var="m", over="_out_messages", record="PyOutMsg",
+                   fields=[("timestamp", "Int"), ("qos", "Int"), ("state", "Int"), ("dup", "Bool")]),
+         calls={"_check_clean_session": ("checkCleanSession", ["_protocol", "_clean_start", "_mqttv5_first_connect", "_clean_session"], "Bool")}),
+]
 EXC = {"ValueError": ".valueError", "TypeError": ".typeError", "AssertionError": ".assertionError", "IndexError": ".indexError"}
 RESERVED = {"bytes": "bytes_", "end": "end_", "from": "from_", "at": "at_", "open": "open_"}
 
@@ -53,12 +69,32 @@ def lname(n):
     return RESERVED.get(n, n)
 
 
+_MODS = {}
+
+
+def module_const(src, name):
+    """value of the module-level integer constant `name` of the live module src (ints and IntEnum members; not bools)"""
+    import importlib
+    mod = _MODS.get(src)
+    if mod is None:
+        try:
+            mod = _MODS[src] = importlib.import_module("paho.mqtt." + src[:-3])
+        except Exception:  # noqa: BLE001
+            return None
+    v = getattr(mod, name, None)
+    if isinstance(v, bool) or not isinstance(v, int):
+        return None
+    return int(v)
+
+
 class Tr:
-    def __init__(self, cfg, fn: ast.FunctionDef):
+    def __init__(self, cfg, fn: ast.FunctionDef, consts=None):
         self.cfg = cfg
         self.fn = fn
         self.types = dict(cfg["params"])     # python name -> Lean type
         self.ret_suffix = None                # straight-line functions: the written attributes returned with the result
+        self.consts = consts if consts is not None else {}   # module-level integer constants used: python name -> value
+        self.rec = None                       # (loop variable, {field: type}) while translating a record-loop body
 
     # ---------------------------------------------------------------- expressions: returns (lean text, type)
     def expr(self, e):
@@ -72,8 +108,20 @@ class Tr:
             raise Missing(f"constant {e.value!r}")
         if isinstance(e, ast.Name):
             if e.id not in self.types:
-                raise Missing(f"unknown name {e.id}")
+                v = module_const(self.cfg["src"], e.id)
+                if v is None:
+                    raise Missing(f"unknown name {e.id}")
+                self.consts[e.id] = v
+                return f"c_{e.id}", "Int"
             return lname(e.id), self.types[e.id]
+        if self.rec and isinstance(e, ast.Attribute) and isinstance(e.value, ast.Name) and e.value.id == self.rec[0]:
+            if e.attr not in self.rec[1]:
+                raise Missing(f"field {e.attr} of the loop record is not modelled")
+            return f"{self.rec[0]}.{e.attr}", self.rec[1][e.attr]
+        if isinstance(e, ast.Call) and isinstance(e.func, ast.Attribute) and isinstance(e.func.value, ast.Name) \
+                and e.func.value.id == "self" and e.func.attr in self.cfg.get("calls", {}) and not e.args and not e.keywords:
+            callee, attrs, rt = self.cfg["calls"][e.func.attr]
+            return f"(← {callee} " + " ".join("self_" + a.lstrip("_") for a in attrs) + ")", rt
         if isinstance(e, ast.Attribute) and isinstance(e.value, ast.Name) and e.value.id == "self":
             key = "self." + e.attr
             if key not in self.types:
@@ -151,11 +199,15 @@ class Tr:
             spec.loader.exec_module(mod)
             return f"({int(getattr(mod.MQTTErrorCode, e.attr))} : Int)", "Int"
         if isinstance(e, ast.Compare) and len(e.ops) == 1 and isinstance(e.ops[0], (ast.In, ast.NotIn)) \
-                and isinstance(e.comparators[0], ast.Tuple) and all(isinstance(x, ast.Constant) and isinstance(x.value, int) for x in e.comparators[0].elts):
+                and isinstance(e.comparators[0], ast.Tuple) and e.comparators[0].elts \
+                and all(isinstance(x, ast.Name) or (isinstance(x, ast.Constant) and isinstance(x.value, int)) for x in e.comparators[0].elts):
             a, ta = self.expr(e.left)
             if ta != "Int":
                 raise Missing("membership test on a non-int")
-            mem = "(" + " || ".join(f"({a} == ({x.value} : Int))" for x in e.comparators[0].elts) + ")"
+            elts = [self.expr(x) for x in e.comparators[0].elts]
+            if any(t != "Int" for _, t in elts):
+                raise Missing("membership test in a tuple of non-ints")
+            mem = "(" + " || ".join(f"({a} == {x})" for x, _ in elts) + ")"
             return (mem if isinstance(e.ops[0], ast.In) else f"(!{mem})"), "Bool"
         if isinstance(e, ast.Compare):
             parts = []
@@ -255,6 +307,15 @@ class Tr:
                 if self.types.get(key) != t:
                     raise Missing(f"{key} assigned a {t}")
                 out.append(f"{pad}self_{s.targets[0].attr.lstrip('_')} := {v}")
+            elif self.rec and isinstance(s, ast.Assign) and len(s.targets) == 1 and isinstance(s.targets[0], ast.Attribute) \
+                    and isinstance(s.targets[0].value, ast.Name) and s.targets[0].value.id == self.rec[0]:
+                f = s.targets[0].attr
+                v, t = self.expr(s.value)
+                if self.rec[1].get(f) != t:
+                    raise Missing(f"{self.rec[0]}.{f} assigned a {t}")
+                out.append(f"{pad}{self.rec[0]} := {{ {self.rec[0]} with {f} := {v} }}")
+            elif isinstance(s, ast.Pass):
+                out.append(f"{pad}pure ()")
             elif isinstance(s, ast.AugAssign) and isinstance(s.target, ast.Attribute) and isinstance(s.target.value, ast.Name) \
                     and s.target.value.id == "self":
                 v, t = self.expr(ast.BinOp(left=s.target, op=s.op, right=s.value))
@@ -287,7 +348,11 @@ class Tr:
                     raise Missing(f"raise {ast.dump(s.exc)[:40]}")
                 out.append(f"{pad}throw Exc{EXC[nm]}")
             elif isinstance(s, ast.Return):
+                if self.rec:
+                    raise Missing("return inside a record loop")
                 v, t = self.expr(s.value)
+                if self.cfg["ret"] == "Bool" and t == "Int":
+                    v = f"({v} != 0)"                       # truthiness of an int
                 if self.ret_suffix is not None:
                     v = "(" + ", ".join([v] + self.ret_suffix) + ")"
                 out.append(f"{pad}return " + (f"Py.Ctl.ret {v}" if ctl else v))
@@ -384,6 +449,72 @@ class Tr:
         return "\n".join(L)
 
 
+def translate_recloop(tr):
+    """a method whose body is `[with self._x_mutex:] <straight statements>; for m in self.<table>.values(): <body>`"""
+    cfg, fn = tr.cfg, tr.fn
+    for a, t in cfg["attrs"]:
+        tr.types["self." + a] = t
+    body = [s for s in fn.body if not (isinstance(s, ast.Expr) and isinstance(s.value, ast.Constant))]
+    while len(body) == 1 and isinstance(body[0], ast.With) and len(body[0].items) == 1 \
+            and isinstance(body[0].items[0].context_expr, ast.Attribute) and body[0].items[0].context_expr.attr.endswith("_mutex"):
+        body = body[0].body
+    loops = [i for i, s in enumerate(body) if isinstance(s, ast.For)]
+    if len(loops) != 1 or loops[0] != len(body) - 1:
+        raise Missing("expected exactly one for-loop, as the last statement")
+    loop = body[-1]
+    lc = cfg["loop"]
+    it = loop.iter
+    if not (isinstance(loop.target, ast.Name) and loop.target.id == lc["var"] and not loop.orelse
+            and isinstance(it, ast.Call) and isinstance(it.func, ast.Attribute) and it.func.attr == "values" and not it.args
+            and isinstance(it.func.value, ast.Attribute) and it.func.value.attr == lc["over"]
+            and isinstance(it.func.value.value, ast.Name) and it.func.value.value.id == "self"):
+        raise Missing(f"loop is not `for {lc['var']} in self.{lc['over']}.values():`")
+    if any(isinstance(n, (ast.Break, ast.Continue, ast.Return, ast.While, ast.For)) for s in loop.body for n in ast.walk(s)):
+        raise Missing("break / continue / return / nested loop in the record loop")
+    pre = tr.stmts(body[:-1], 1, None)
+    tr.rec = (lc["var"], dict(lc["fields"]))
+    lbody = tr.stmts(loop.body, 1, None)
+    tr.rec = None
+    sa = lambda a: "self_" + a.lstrip("_")  # noqa: E731
+    atypes = dict(cfg["attrs"])
+    ro = [a for a, _ in cfg["attrs"] if a not in cfg["writes"]]
+    w = cfg["writes"]
+    rec = lc["record"]
+    name = cfg["name"]
+    where = f"{cfg['src']} {cfg['qual']} (line {fn.lineno})"
+    wt = " × ".join(atypes[a] for a in w)
+    wtuple = ", ".join(sa(a) for a in w)
+    L = [f"/-- the fields of an MQTTMessage that {cfg['qual']} reads or writes -/",
+         f"structure {rec} where"]
+    L += [f"  {f} : {t}" for f, t in lc["fields"]]
+    L += ["  deriving DecidableEq, Repr", ""]
+    allp = " ".join(f"({sa(a)} : {t})" for a, t in cfg["attrs"])
+    L.append(f"/-- {where}: the body of the loop over self.{lc['over']}.values() -/")
+    L.append(f"def {name}_body {allp} ({lc['var']} : {rec}) : Except Exc (({wt}) × {rec}) := do")
+    for a in w:
+        L.append(f"  let mut {sa(a)} := {sa(a)}")
+    L.append(f"  let mut {lc['var']} := {lc['var']}")
+    L += lbody
+    L.append(f"  return (({wtuple}), {lc['var']})")
+    L.append("")
+    rop = " ".join(f"({sa(a)} : {atypes[a]})" for a in ro)
+    L.append(f"/-- {where}: the loop, over the records in dictionary order -/")
+    L.append(f"def {name}_loop {rop} : ({wt}) → List {rec} → Except Exc (({wt}) × List {rec})")
+    L.append("  | w, [] => .ok (w, [])")
+    L.append(f"  | ({wtuple}), {lc['var']} :: rest => do")
+    L.append(f"    let (w', m') ← {name}_body {' '.join(sa(a) for a, _ in cfg['attrs'])} {lc['var']}")
+    L.append(f"    let (w'', rest') ← {name}_loop {' '.join(sa(a) for a in ro)} w' rest")
+    L.append("    return (w'', m' :: rest')")
+    L.append("")
+    L.append(f"/-- {where}; returns the written attributes ({', '.join(w)}) and the records of self.{lc['over']} -/")
+    L.append(f"def {name} {allp} ({lc['over'].lstrip('_')} : List {rec}) : Except Exc (({wt}) × List {rec}) := do")
+    for a in w:
+        L.append(f"  let mut {sa(a)} := {sa(a)}")
+    L += pre
+    L.append(f"  {name}_loop {' '.join(sa(a) for a in ro)} ({wtuple}) {lc['over'].lstrip('_')}")
+    return "\n".join(L)
+
+
 def find_func(tree, qual):
     body = tree.body
     node = None
@@ -400,14 +531,18 @@ def run(out):
     of the file they belong to (one file per consumer, so that a function that can no longer be translated breaks only
     the proofs that depend on it)"""
     texts = {}
-    for cfg, straight in [(c, False) for c in FUNCS] + [(c, True) for c in STRAIGHT]:
+    consts = {}
+    for cfg, straight in [(c, False) for c in FUNCS] + [(c, True) for c in STRAIGHT] + [(c, c.get("straight", False)) for c in RECLOOP]:
         f = cfg["file"]
         texts.setdefault(f, [])
         try:
             tree = ast.parse(open(os.path.join(PKG, cfg["src"]), encoding="utf-8").read())
             fn = find_func(tree, cfg["qual"])
-            tr = Tr(cfg, fn)
-            texts[f].append(tr.translate_straight() if straight else tr.translate())
+            tr = Tr(cfg, fn, consts.setdefault(f, {}))
+            if "loop" in cfg:
+                texts[f].append(translate_recloop(tr))
+            else:
+                texts[f].append(tr.translate_straight() if straight else tr.translate())
             out.report["anchors"]["fn:" + cfg["name"]] = {"value": "translated", "where": f"{cfg['src']} {cfg['qual']}"}
         except Missing as e:
             texts[f].append(f"-- MISSING translation {cfg['name']}: {e}")
@@ -416,4 +551,6 @@ def run(out):
             out.report["missing"].append({"name": "fn:" + cfg["name"], "why": f"cannot parse: {e}", "file": f})
     return {f: ("-- GENERATED by /verif/py/py2lean.py from the working tree of /repo. Do not edit.\n"
                 "import Paho.Model.Py\n"
-                "namespace Paho.Gen.Fn\nopen Paho\n\n" + "\n\n".join(t) + "\n\nend Paho.Gen.Fn\n") for f, t in texts.items()}
+                "namespace Paho.Gen.Fn\nopen Paho\n\n"
+                + "".join(f"/-- module-level constant `{n}` of the live module -/\ndef c_{n} : Int := {v}\n\n" for n, v in sorted(consts.get(f, {}).items()))
+                + "\n\n".join(t) + "\n\nend Paho.Gen.Fn\n") for f, t in texts.items()}
